@@ -9,6 +9,7 @@ import H5.Model.Whitespace
 import H5.Model.Infoset
 import Driver.TokOps
 import Driver.SpecOps
+import Driver.SerOps
 import H5.Model.Walker
 import H5.Model.Sax
 import H5.Model.InjectMeta
@@ -108,7 +109,10 @@ def handle (ws : List String) : String :=
     | none =>
       match handleSpec (op :: rest) with
       | some r => r
-      | none => "bad-op"
+      | none =>
+        match handleSer (op :: rest) with
+        | some r => r
+        | none => "bad-op"
   | _ => "bad-op"
 
 partial def loop (h : IO.FS.Stream) (out : IO.FS.Stream) : IO Unit := do
